@@ -379,8 +379,8 @@ EDGES_DYADIC = [[0.0, 1.0, 3.0], [-1.0], [0.5, 1.5], [0.0, 0.25, 0.5, 0.75], []]
 EDGES_HOSTILE = [[0.1, 0.2, 0.3], [1.0 / 3, 2.0 / 3], [1e6 + 0.1, 1e6 + 0.7]]
 
 LABEL_KEYS = ["a", "b", "x1", "entries", "k y", "value", "bins", "i0", "quantity"]  # incl. names the library uses for attributes
-CATEGORIES = ["a", "b", "c", "", "entries", "NaN", "1.5", "zz", "contentType"]
-STRINGS = ["a", "b", "", "entries", "x y", "nan"]
+CATEGORIES = ["a", "b", "c", "", "entries", "NaN", "1.5", "zz", "contentType", "inf", "nan"]
+STRINGS = ["a", "b", "", "entries", "x y", "nan", "inf", "-inf"]  # incl. the spellings the JSON format uses for non-finite numbers
 SELECTIONS = [True, False, 0, 1, 0.5, 2, -1, float("nan"), 0.25, 1.0, 0.0]
 WEIGHTS_POS = [1.0, 1.0, 1.0, 1.0, 0.5, 2.0, 0.25, 1.5, 3.0, 0.125, 1, 2]
 WEIGHTS_NONPOS = [0.0, -1.0, float("nan"), -0.5, 0]
